@@ -16,6 +16,7 @@ CONFIG = {
         'plumpy.processes.Process._interrupt_action': 'None|plumpy.futures.CancellableAction',
         'plumpy.processes.Process._paused': 'None|plumpy.persistence.SavableFuture',
         'plumpy.processes.Process._future': 'plumpy.persistence.SavableFuture',
+        'plumpy.process_states.Excepted.exception': 'None|BaseException',
         'plumpy.processes.Process._event_helper': 'plumpy.event_helper.EventHelper',
         'plumpy.event_helper.EventHelper._listeners': 'set',
         'plumpy.processes.Process._event_callbacks': 'dict',
@@ -75,7 +76,7 @@ def on_terminated(self):
     requires(wf_cleanups(self))
     modifies(user_effects, self._cleanups, self._event_callbacks, self._closed)
     raises_nothing()
-    ensures('closed', self._closed is True)
+    ensures('closed', truthy(self._closed))
 
 
 @contract('plumpy.processes.Process.has_terminated', props=['C01'])
@@ -184,3 +185,116 @@ def pause(self, msg_text=None):
                                                and old(self._pausing) is None and old(self._stepping) is False,
                                                ret is True and self._paused is not None))
     raises(Exception, old(self._stepping) is True and self._state is old(self._state))
+
+
+# ------------------------------------------------------------------------------------------------ outcome reports (C02)
+from plumpy.exceptions import InvalidStateError, KilledError
+
+
+@spec
+def wf_future_of(p):
+    return isinstance(p._future, asyncio.Future)
+
+
+@contract('plumpy.processes.Process.on_finish', props=['C02', 'C12'])
+def on_finish(self, result, successful):
+    """entering FINISHED: the future resolves to the outputs object; invalid outputs downgrade to unsuccessful"""
+    requires(wf_future_of(self) and self._future._state == 'PENDING' and is_bool(successful))
+    modifies(user_effects, self._future._state, self._future._result)
+    ensures('future_resolves_to_outputs', self._future._state == 'FINISHED' and self._future._result is self._outputs
+            and self._future._exception is None)
+    raises(StateEntryFailed, truthy(successful) and type_is(exc.state, Finished) and exc.state.successful is False
+           and exc.state.result is result and exc.state.state_machine is self)
+    raises(Exception, truthy(successful))
+
+
+@contract('plumpy.processes.Process.on_except', props=['C02'])
+def on_except(self, exc_info):
+    requires(wf_future_of(self) and is_tuple(exc_info) and len(seq(exc_info)) == 3 and is_ref(seq(exc_info)[1]))
+    modifies(self._future, attr(seq(exc_info)[1], '__traceback__'), self._future._state, self._future._exception)
+    raises_nothing()
+    ensures('future_raises_the_exception', self._future._state == 'FINISHED' and self._future._exception is seq(exc_info)[1])
+    ensures('replaces_a_resolved_future', implies(old(self._future._state) != 'PENDING', fresh(self._future)))
+
+
+@contract('plumpy.processes.Process.on_kill', props=['C02', 'C04'])
+def on_kill(self, msg):
+    requires(wf_future_of(self) and self._future._state == 'PENDING' and (msg is None or is_dict(msg)))
+    modifies(self._status, self._future._state, self._future._exception)
+    ensures('future_raises_killed_error', self._future._state == 'FINISHED' and type_is(self._future._exception, KilledError)
+            and fresh(self._future._exception))
+    ensures('kill_text_recorded', seq(attr(self._future._exception, 'args')) == [self._status]
+            and implies(msg is not None and dhas(msg, 'message') and truthy(dget(msg, 'message')), self._status is dget(msg, 'message')))
+    raises(KeyError, msg is not None and not dhas(msg, 'message'))
+
+
+@contract('plumpy.processes.Process.result', props=['C02'])
+def process_result(self):
+    requires(concrete_state(self._state))
+    modifies()
+    ensures('finished_gives_result', type_is(self._state, Finished) and ret is self._state.result)
+    raises(KilledError, type_is(self._state, Killed) and fresh(exc) and seq(attr(exc, 'args')) == [self._state.msg])
+    raises(BaseException, type_is(self._state, Excepted) and (exc is self._state.exception or self._state.exception is None
+                                                                or not truthy(self._state.exception)))
+    raises(InvalidStateError, not terminal_label(self._state.LABEL))
+
+
+@contract('plumpy.processes.Process.successful', props=['C02'])
+def process_successful(self):
+    requires(concrete_state(self._state))
+    modifies()
+    ensures('finished_gives_flag', type_is(self._state, Finished) and ret is self._state.successful)
+    raises(InvalidStateError, not type_is(self._state, Finished))
+
+
+@contract('plumpy.processes.Process.killed_msg', props=['C02'])
+def killed_msg(self):
+    requires(concrete_state(self._state))
+    modifies()
+    ensures('killed_gives_message', type_is(self._state, Killed) and ret is self._state.msg)
+    raises(InvalidStateError, not type_is(self._state, Killed))
+
+
+@contract('plumpy.processes.Process.exception', props=['C02'])
+def process_exception(self):
+    requires(concrete_state(self._state))
+    modifies()
+    raises_nothing()
+    ensures('excepted_gives_exception', ret is (self._state.exception if type_is(self._state, Excepted) else None))
+
+
+# ------------------------------------------------------------------------------------------------ the spec (assumed here, C11/C12)
+from plumpy.process_spec import ProcessSpec
+from plumpy.ports import PortNamespace, PortValidationError
+
+
+@contract('plumpy.processes.Process.spec', assumed=True, result_class='plumpy.process_spec.ProcessSpec')
+def process_spec(cls):
+    """ASSUMED (class-level cache built by define(), reflection): the process class's specification object"""
+    modifies()
+    raises_nothing()
+    ensures(ret is uf('spec_of', cls))
+
+
+@contract('plumpy.process_spec.ProcessSpec.outputs', assumed=True, result_class='plumpy.ports.PortNamespace')
+def spec_outputs(self):
+    """ASSUMED: the `outputs` namespace of the spec's port tree (a fixed child of the root namespace)"""
+    modifies()
+    raises_nothing()
+    ensures(ret is uf('outputs_ns', self))
+
+
+@contract('plumpy.process_spec.ProcessSpec.inputs', assumed=True, result_class='plumpy.ports.PortNamespace')
+def spec_inputs(self):
+    modifies()
+    raises_nothing()
+    ensures(ret is uf('inputs_ns', self))
+
+
+@contract('plumpy.ports.PortNamespace.validate', assumed=True)
+def ns_validate(self, port_values=None, breadcrumbs=()):
+    """ASSUMED here (C11 verifies the validators): returns None (accepted) or a PortValidationError; validators are user
+    code"""
+    modifies(user_effects)
+    ensures(ret is None or isinstance(ret, PortValidationError))
+    raises(Exception, True)
